@@ -148,6 +148,22 @@ Theorem C07_message_never_visible_otherwise :
 Proof. exact process_visible. Qed.
 Print Assumptions C07_message_never_visible_otherwise.
 
+(* For every history of messages from an empty table: the registrations lookups return are exactly the
+   announced ones, and a lookup for any phantom returns only announced registrations. *)
+Theorem C07_history_visible_eq_announced :
+  forall select params_ok dst_port geoip_ok covert_check live cfg st ws,
+    visible_all (fst (process_all select params_ok dst_port geoip_ok covert_check live cfg st ws)) =
+    visible_all st ++ announced_regs (snd (process_all select params_ok dst_port geoip_ok covert_check live cfg st ws)).
+Proof. exact process_all_visible. Qed.
+Print Assumptions C07_history_visible_eq_announced.
+
+Theorem C07_lookup_only_announced :
+  forall select params_ok dst_port geoip_ok covert_check live cfg ws ph r,
+    In r (visible (fst (process_all select params_ok dst_port geoip_ok covert_check live cfg [] ws)) ph) ->
+    In r (announced_regs (snd (process_all select params_ok dst_port geoip_ok covert_check live cfg [] ws))).
+Proof. exact lookup_only_announced. Qed.
+Print Assumptions C07_lookup_only_announced.
+
 (* One client message is passed on to the peers at most once (the IPv6 twin of a dual-stack message
    never shares).  Assumed about phantom selection: an IPv6 selection is not an IPv4 address (C14). *)
 Theorem C07_share_at_most_once :
